@@ -12,6 +12,7 @@ import (
 	"bufio"
 	"bytes"
 	"context"
+	"io"
 	"net"
 	"net/http"
 	"net/url"
@@ -133,6 +134,13 @@ func vfH_C03_upstream() {
 	vfrt.Assert(client.Closed >= 1 && upstream.Closed >= 1, "upstream/both-sockets-closed")
 }
 
+// vfRWCBody has the shape of the body net/http's Transport returns for a 101 response: the connection is an
+// embedded io.ReadWriteCloser, so CloseWrite is not in the method set and is only found by reflectx.LookupImpl.
+type vfRWCBody struct {
+	_ *bufio.Reader
+	io.ReadWriteCloser
+}
+
 //vf:harness property=C03 nopanic reach=upgrade-tunnel steps=8000000
 func vfH_C03_upgrade() {
 	// 101 Switching Protocols: the response body is the upstream connection; bytes flow both ways untouched
@@ -150,7 +158,7 @@ func vfH_C03_upgrade() {
 	target := martian.NewVfConn(down)
 	rt.respond = func(req *http.Request, n int) (*http.Response, error) {
 		return &http.Response{StatusCode: 101, Status: "101 Switching Protocols", ProtoMajor: 1, ProtoMinor: 1,
-			Header: http.Header{"Connection": {"Upgrade"}, "Upgrade": {"websocket"}}, Body: target, Request: req}, nil
+			Header: http.Header{"Connection": {"Upgrade"}, "Upgrade": {"websocket"}}, Body: &vfRWCBody{ReadWriteCloser: target}, Request: req}, nil
 	}
 	client := martian.NewVfConn(append([]byte("GET http://example.com/ws HTTP/1.1\r\nHost: example.com\r\nConnection: Upgrade\r\nUpgrade: websocket\r\n\r\n"), up...))
 	vfrt.Reach("upgrade-tunnel")
